@@ -1,21 +1,3 @@
 #!/bin/sh
-# run_arena.sh <repo> <workdir> -- regenerate ArenaGen.v from <repo>/src/arenas/{bucket,single_threaded}.rs and check
-# ArenaGenProofs.v against it.  Works in <workdir> (created; the hand-written files are COPIED there).
-# Exit 0 iff the translator succeeds and every theorem is proved and closed.  One line per theorem.
-set -u
-HERE=$(cd "$(dirname "$0")" && pwd)
-REPO=${1:?usage: run_arena.sh <repo> <workdir>}
-WORK=${2:?usage: run_arena.sh <repo> <workdir>}
-COQ_LASSO=${LASSO_COQ_DIR:-/verif/coq}
-mkdir -p "$WORK" || exit 2
-cp "$HERE/GenPrelude.v" "$HERE/GenIR.v" "$HERE/GenTactics.v" "$HERE/ArenaGenProofs.v" "$WORK/" || exit 2
-rm -f "$WORK/ArenaGen.v" "$WORK"/ArenaGen.vo "$WORK"/ArenaGenProofs.vo
-python3 "$HERE/rust2coq.py" --repo "$REPO" --out "$WORK" --only arena || { echo "run_arena: TRANSLATOR LOST"; exit 1; }
-cd "$WORK" || exit 2
-for f in GenPrelude GenIR GenTactics ArenaGen; do
-  timeout 300 coqc -Q "$COQ_LASSO" Lasso -Q . LassoGen $f.v || { echo "run_arena: $f.v does not compile"; exit 1; }
-done
-python3 "$HERE/check_thms.py" "$WORK" ArenaGenProofs.v
-rc=$?
-[ $rc -eq 0 ] && echo "run_arena: OK" || echo "run_arena: FAIL"
-exit $rc
+# run_arena.sh <repo> <workdir> -- kept for compatibility: `prop.sh arena <repo> <workdir>` (exit 0 iff everything is proved)
+exec "$(dirname "$0")/prop.sh" arena "$@"
